@@ -137,8 +137,14 @@ def check(ctx: Ctx) -> None:
         s = l.run.__dict__["s"]
         ext = [e for e in l.effects if e.kind == "extcall"]
         hl = [e for e in ext if str(e.target).startswith("hashlib.")]
-        ok = len(hl) == 1 and hl[0].value and isinstance(hl[0].value[0], SStr) and "str.encode" in repr(hl[0].value[0]) and hl[0].value[0].frags[0].b is not None
-        recv = hl[0].value[0].frags[0].b if ok else None
+        data = hl[0].value[0] if len(hl) == 1 and hl[0].value else None
+        if len(hl) == 1 and not hl[0].value:
+            # h = hashlib.sha1(); h.update(<bytes>); h.hexdigest()
+            ups = [e for e in l.effects if e.kind == "call" and getattr(e.target, "name", "") == "update" and isinstance(e.key, SOpaque)
+                   and (e.key.__dict__.get("extcall") or {}).get("q", "").startswith("hashlib.")]
+            data = ups[0].value[0] if len(ups) == 1 and ups[0].value else None
+        ok = isinstance(data, SStr) and "str.encode" in repr(data) and data.frags[0].b is not None
+        recv = data.frags[0].b if ok else None
         whole = isinstance(recv, SStr) and len(recv.frags) == 1 and recv.frags[0].kind == "OF" and recv.frags[0].a[0] == s.uid
         ctx.check(bool(ok and whole) and not [e for e in ext if str(e.target) in ("builtins.hash",)], "C18.name", "hash_deterministic is a hashlib digest of the whole encoded string", f"{UTIL}:hash_deterministic",
                   f"digest of {short(recv)} via {[str(e.target) for e in hl]}", "hash_deterministic is not a hashlib digest of the complete string")
